@@ -87,6 +87,16 @@ impl InterfaceInner {
             }
         };
 
+        let ipv6_packet = check!(Ipv6Packet::new_checked(payload));
+
+        // A datagram received in a link-layer broadcast frame that is not addressed to an IP
+        // multicast group is silently discarded (RFC 1122 § 3.3.6), like `process_ethernet` does.
+        if ieee802154_repr.dst_addr.is_some_and(|a| a.is_broadcast())
+            && !ipv6_packet.dst_addr().is_multicast()
+        {
+            return None;
+        }
+
         self.process_ipv6(
             sockets,
             meta,
@@ -94,7 +104,7 @@ impl InterfaceInner {
                 Some(s) => HardwareAddress::Ieee802154(s),
                 None => HardwareAddress::Ieee802154(Ieee802154Address::Absent),
             },
-            &check!(Ipv6Packet::new_checked(payload)),
+            &ipv6_packet,
         )
     }
 
